@@ -448,6 +448,9 @@ FENCE_STATEMENTS = [
     # nested bodies, several levels of indentation
     ['```\nfor i in range(2):\n    if self._Z[t] > i:\n        self._Y[t] = i\n    self._W[t] = i\nself._V[t] = 1\n```', 'Z = Y + W[-1] + V[1]'],
     ['`self._Y[t] = (1 +\n 2)`', 'Z = Y'],
+    # equations with two and three inline verbatim excerpts on one line (each excerpt is a term of its own)
+    ['A = B + 1', 'E = `self._A[t]` + F[1] * `self._B[t]`', 'B = X'],
+    ['E = max(`self._A[t]`, `2.0`) + `self._B[t-1]` * X[`11`]', 'A = X', 'B = X[-1]'],
 ]
 FENCE_BASES = ['\n'.join(st) for st in FENCE_STATEMENTS]
 
